@@ -208,6 +208,10 @@ func (f *PostProcessorRegistrationDelegate) applyPostProcessBeforeInstantiation(
 }
 
 func (f *PostProcessorRegistrationDelegate) ResolveAfterInstantiation(meta *component_definition.Meta, name string) error {
+	// every resolution starts from scratch: candidates collected by an earlier, failed attempt must not pile up
+	for _, property := range meta.GetAllProperties() {
+		property.Injects = nil
+	}
 	for _, processor := range f.componentPostProcessors {
 		if ipb, ok := processor.(container.InstantiationAwareComponentPostProcessor); ok {
 			ok, err := ipb.PostProcessAfterInstantiation(meta.Raw, name)
